@@ -92,6 +92,17 @@ def run_config(cfg):
     base = loss_of(P, X)
     prng = np.random.default_rng(seed + 5)
     if subsample:
+        # the opacities are fitted last: row by row a bounded least-squares problem with a unique optimal value,
+        # solved independently (scipy BVLS) from the returned intensities
+        from scipy.optimize import lsq_linear as _bvls
+        V = (X @ Aeff.T).T                      # d x layers
+        worst = 0.0
+        for srow in range(P.shape[0]):
+            ropt = _bvls(V, T[srow], bounds=(np.full(P.shape[1], lbp, float), np.full(P.shape[1], ubp, float) + (1e-12 if lbp == ubp else 0)), method="bvls")
+            mine = np.linalg.norm(V @ P[srow] - T[srow])
+            worst = max(worst, mine - np.sqrt(2 * ropt.cost))
+        if worst > 2e-3 * (1 + base):
+            bad.append(("C11.last-factor-optimal", dict(factor="P", kind="row-optimum", **where0), 0.0, float(worst)))
         for _ in range(30):
             Pn = np.clip(P + prng.normal(0, 0.05, P.shape), lbp, ubp)
             if loss_of(Pn, X) < base - 5e-3 * (1 + base):
